@@ -2540,6 +2540,9 @@ evhttp_read_header(struct evhttp_connection *evcon,
 		/* Start over if we got a 100 Continue response. */
 		if (req->response_code == 100) {
 			struct evbuffer *output = bufferevent_get_output(evcon->bufev);
+			/* the fields of the interim response are not part of
+			 * the final one */
+			evhttp_clear_headers(req->input_headers);
 			evbuffer_add_buffer(output, req->output_buffer);
 			evhttp_start_write_(evcon);
 			return;
